@@ -61,7 +61,7 @@ MATRIX = _matrix()
 
 def streams(ctx):
     return [("matrix", len(MATRIX)), ("random", ctx.scale(250, 6000)), ("zero_params", ctx.scale(12, 100)),
-            ("probe", ctx.scale(60, 600))]
+            ("probe", ctx.scale(60, 600)), ("longdoc", ctx.scale(120, 2500))]
 
 
 def _strip_for_config(ir, et, edd_emit):
@@ -118,7 +118,15 @@ def classify(ir, cfg, d):
     generic = "docstring.%s.%s.%s.%s" % (style, where, field, how)
     detail = "et=%s,edd=%s,t=%s,d=%s" % (et, edd, tk, dk)
     mech = None
-    if style == "numpydoc" and not et and (where == "names" or (where == "parse" and how in ("KeyError", "IndexError"))
+    entries = list(ir["params"].values()) + ([ir["returns"]["return_type"]] if ir.get("returns") else [])
+    long_doc = any(len(p.get("doc") or "") > 70 for p in entries)
+    if style == "numpydoc" and et and cfg.get("ww") and long_doc and (
+            (where == "names" and how == "extra") or (where in ("param", "return") and field == "doc")):
+        mech = "docstring.numpydoc.wrapped-description-misparsed"
+    elif cfg.get("ww") and long_doc and where in ("param", "return") and dk == "strspace" and field == "default" and \
+            how == "value" and "\\n" in (got or ""):
+        mech = "docstring.wrap-breaks-inside-string-default"
+    elif style == "numpydoc" and not et and (where == "names" or (where == "parse" and how in ("KeyError", "IndexError"))
                                            or (where == "returns" and how == "lost")):
         mech = "docstring.numpydoc.no-types.names-dropped"
     elif (style in ("google", "numpydoc") and where == "return" and field == "default" and how.startswith("gained")
@@ -171,6 +179,11 @@ def gen_case(ctx, stream, idx):
         return irgen.rand_ir(r, type_kinds=CORE_TKINDS, default_kinds=CORE_DKINDS, nparams=r.randint(1, 6))
     if stream == "zero_params":
         return irgen.rand_ir(r, nparams=0, with_return=True, type_kinds=CORE_TKINDS)
+    if stream == "longdoc":
+        # descriptions long enough to be wrapped (word_wrap) - and long Literal types
+        ir = irgen.rand_ir(r, type_kinds=CORE_TKINDS, default_kinds=CORE_DKINDS, nparams=r.randint(1, 4),
+                           doc_kinds=("long", "long", "plain"))
+        return ir
     if stream == "probe":
         return irgen.rand_ir(r, nparams=r.randint(1, 4), default_kinds=PROBE_DKINDS + ("absent", "int", "str"))
     raise ValueError(stream)
